@@ -59,6 +59,68 @@ impl ClvmGen {
         V::list(&items)
     }
 
+    /// an environment in which a path atom of the program resolves: a tree built along the path's bits (siblings are
+    /// distinct small atoms), with a full binary tree of depth 3 of distinct atoms at the addressed node, so that
+    /// f/r chains applied to the path still return values and a wrongly composed or wrongly decoded path is visible
+    pub fn env_along(&mut self, prog: &V) -> Option<V> {
+        fn atoms(v: &V, quoted: bool, out: &mut Vec<Vec<u8>>) {
+            match v {
+                V::A(b) => {
+                    if !quoted && !b.is_empty() && b.len() <= 10 {
+                        out.push(b.clone());
+                    }
+                }
+                V::P(a, b) => {
+                    // (q . X): X is data
+                    if **a == V::A(vec![1]) {
+                        return;
+                    }
+                    atoms(a, true, out); // operator position
+                    let mut cur: &V = b;
+                    while let V::P(x, rest) = cur {
+                        atoms(x, quoted, out);
+                        cur = rest;
+                    }
+                }
+            }
+        }
+        let mut cands = vec![];
+        atoms(prog, false, &mut cands);
+        cands.retain(|b| b.iter().any(|x| *x != 0));
+        if cands.is_empty() {
+            return None;
+        }
+        // prefer wide paths
+        cands.sort_by_key(|b| std::cmp::Reverse(b.len()));
+        let pick = if self.rng.random_bool(0.6) { 0 } else { self.rng.random_range(0..cands.len()) };
+        let path = num_bigint::BigUint::from_bytes_be(&cands[pick]);
+        let nbits = path.bits();
+        if nbits == 0 || nbits > 90 {
+            return None;
+        }
+        let mut marker = 0x20u8;
+        let mut next = || {
+            marker = marker.wrapping_add(1);
+            V::A(vec![0x40, marker])
+        };
+        fn full(depth: usize, next: &mut dyn FnMut() -> V) -> V {
+            if depth == 0 {
+                next()
+            } else {
+                let a = full(depth - 1, next);
+                let b = full(depth - 1, next);
+                V::cons(a, b)
+            }
+        }
+        // the last step taken is the bit below the top bit: build from the target outwards
+        let mut node = full(3, &mut next);
+        for i in (0..nbits - 1).rev() {
+            let sib = next();
+            node = if path.bit(i) { V::cons(sib, node) } else { V::cons(node, sib) };
+        }
+        Some(node)
+    }
+
     /// path atoms of 1..9 bytes: all-ones, top-bit-set, zero-padded, random
     pub fn path_zoo(&mut self) -> V {
         let r = &mut self.rng;
